@@ -4,6 +4,7 @@
 package c15
 
 import (
+	"bytes"
 	"context"
 	"fmt"
 	"os"
@@ -11,8 +12,10 @@ import (
 	"testing"
 	"time"
 
+	"github.com/ipni/go-libipni/announce/message"
 	"github.com/ipni/go-libipni/dagsync"
 	"github.com/ipni/go-libipni/verifshim/vsched"
+	pubsub "github.com/libp2p/go-libp2p-pubsub"
 
 	"verifharness/sched"
 	"verifharness/schedfx"
@@ -330,6 +333,56 @@ func announceVsClose() *sched.Scenario {
 	}
 }
 
+// K10: the announcement arrives over gossip pubsub (the subscriber has a libp2p
+// host, its receiver a real topic), so that the receiver's pubsub watcher
+// goroutine is the one handing it to the subscriber, while Close runs (one or
+// two callers). Every call returns, the watcher exits, nothing happens after
+// Close returned.
+func pubsubAnnounceVsClose(nClose int) *sched.Scenario {
+	name := fmt.Sprintf("K10-pubsub-announcement-vs-%dclose", nClose)
+	return &sched.Scenario{Name: name, MaxSteps: 4000,
+		Setup: func(e *sched.Exec) ([]sched.Thread, func()) {
+			w := schedfx.New(e, schedfx.Options{Pubs: 1, ChainLen: 3, Pubsub: true})
+			p, ch := w.Pubs[0], w.Chains[0]
+			m := message.Message{Cid: ch.Cids[2]}
+			m.SetAddrs(p.AddrInfo().Addrs)
+			var buf bytes.Buffer
+			if err := m.MarshalCBOR(&buf); err != nil {
+				panic(err)
+			}
+			ths := []sched.Thread{
+				{Name: "M", Fn: func() {
+					e.Log("M call publish")
+					err := w.Topic.Publish(context.Background(), buf.Bytes(), pubsub.WithSecretKeyAndPeerId(p.Ident.Priv, p.Ident.ID))
+					e.Log("M ret publish failed=%v", err != nil)
+				}},
+				closeThread(e, w, "C1"),
+			}
+			if nClose > 1 {
+				ths = append(ths, closeThread(e, w, "C2"))
+			}
+			return ths, finish(e, w)
+		},
+		Check: func(e *sched.Exec) []sched.Finding {
+			must := []string{"M", "C1"}
+			if nClose > 1 {
+				must = append(must, "C2")
+			}
+			out := common(e, name, must)
+			if f, ok := e.Data.(*final); ok && len(f.events) > 1 {
+				out = append(out, sched.Finding{Sig: name + ":more-than-one-event", Msg: fmt.Sprint(f.events)})
+			}
+			e.Class = "no-hook"
+			for _, l := range e.Obs() {
+				if strings.HasPrefix(l, "hook ") {
+					e.Class = "announcement-was-synced"
+				}
+			}
+			return out
+		},
+	}
+}
+
 // K6: two announcements of one publisher and Close, every block already in the
 // destination store (syncs make no block requests and can complete). The first
 // sync is held inside its block hook for ad 1 at an idle point, which the
@@ -484,7 +537,7 @@ func postClose(call string) *sched.Scenario {
 
 func TestCheck(t *testing.T) {
 	r := vp.New("C15", "model_checking",
-		"scenarios on the real subscriber built with the instrumentation overlay (gated in-memory publisher, chain of 2-3 signed ads): K1 explicit sync (queried head) || Close, with one and with two concurrent Close callers; K7 explicit syncs of two publishers || Close; K8 announce-triggered syncs of two publishers under a limit of one at a time || Close; K9 an explicit sync whose block hook makes a nested explicit sync of another publisher || Close; K2 announce-triggered sync || Close; K6 two announcements of one publisher and Close with every block already local, the first sync held in its block hook until nothing else can move (a sync still pending when Close cancels must be abandoned); K3 listener registration and cancellation || Close; K5 each of 11 entry points called after Close has returned. All interleavings at the scheduling points (locks, atomics, channel operations, selects, spawns, requests, hook calls, observations) up to the preemption bound, so Close starts at every point of a sync. 'Blocks forever' is decided by quiescence with the caller not finished. states = distinct decision states; transitions = scheduling steps; traces = executions of the real code.",
+		"scenarios on the real subscriber built with the instrumentation overlay (gated in-memory publisher, chain of 2-3 signed ads): K1 explicit sync (queried head) || Close, with one and with two concurrent Close callers; K7 explicit syncs of two publishers || Close; K8 announce-triggered syncs of two publishers under a limit of one at a time || Close; K9 an explicit sync whose block hook makes a nested explicit sync of another publisher || Close; K2 announce-triggered sync || Close; K10 the subscriber with a libp2p host and a real gossipsub topic, an announcement published on the topic (it reaches the subscriber through the receiver's pubsub watcher goroutine) || Close (thorough: two Close callers); K6 two announcements of one publisher and Close with every block already local, the first sync held in its block hook until nothing else can move (a sync still pending when Close cancels must be abandoned); K3 listener registration and cancellation || Close; K5 each of 11 entry points called after Close has returned. All interleavings at the scheduling points (locks, atomics, channel operations, selects, spawns, requests, hook calls, observations) up to the preemption bound, so Close starts at every point of a sync. 'Blocks forever' is decided by quiescence with the caller not finished. states = distinct decision states; transitions = scheduling steps; traces = executions of the real code.",
 		"cooperative scheduling at synchronization operations; priority selects in source order; one publisher",
 		"goroutine leak = a goroutine of the bubble with a go-libipni frame after Close and cleanup",
 	)
@@ -497,7 +550,10 @@ func TestCheck(t *testing.T) {
 	if vp.Thorough() {
 		bound = 3
 	}
-	scs := []*sched.Scenario{pendingAnnounceVsClose(), twoExplicitVsClose(), limitedAnnouncesVsClose(), nestedSyncVsClose(), explicitVsClose(1), explicitVsClose(2), announceVsClose(), listenerVsClose()}
+	scs := []*sched.Scenario{pendingAnnounceVsClose(), twoExplicitVsClose(), limitedAnnouncesVsClose(), nestedSyncVsClose(), pubsubAnnounceVsClose(1), explicitVsClose(1), explicitVsClose(2), announceVsClose(), listenerVsClose()}
+	if vp.Thorough() {
+		scs = append(scs, pubsubAnnounceVsClose(2))
+	}
 	for _, c := range []string{"SyncAdChain", "SyncEntries", "SyncOneEntry", "SyncHAMTEntries", "Announce", "OnSyncFinished", "GetLatestSync", "SetLatestSync", "RemoveHandler", "HttpPeerStore", "Close"} {
 		scs = append(scs, postClose(c))
 	}
@@ -508,7 +564,7 @@ func TestCheck(t *testing.T) {
 	}
 	start := time.Now()
 	weight := func(i int) float64 { // the K5 scenarios are nearly sequential and cheap
-		if i < 4 {
+		if i < 5 {
 			return 5
 		}
 		return 1
